@@ -309,6 +309,7 @@ func runProperty(pr *Property, env *Env, tier string, seed int64, lean leanResul
 			cases = append(cases, pr.Corpus(env)...)
 		}
 		cases = append(cases, pr.Gen(rng, tier, env)...)
+		cases = append(cases, patternWatchCases(pr, rng, tier)...)
 	}
 
 	workers := pr.Workers
@@ -527,6 +528,7 @@ func runProperty(pr *Property, env *Env, tier string, seed int64, lean leanResul
 		"implementation_outcomes":                opStatus,
 		"known_finding_lines":                    findingLines,
 		"harness_errors":                         len(harnessErrs),
+		"source_pattern_literals":                patternWatchNote,
 	}
 	assumptions := append([]string{
 		"the theorems are about the Lean model; the model is tied to /repo's working tree by this run's correspondence (same operations on the real Go code and on the compiled model, byte-exact diff)",
